@@ -87,7 +87,8 @@ def mcmc_doc(kind, ckpt, iters, freq):
         doc = c15.toy_joint() + [c15.mcmc("joint", ops, iters, ["joint"])]
     else:
         doc = c15.hmc_doc(kind.startswith("hmc-dense"), {"hmc-diag": [], "hmc-dense-step-mass": ["stepsize", "mass"],
-                                                         "hmc-diag-dual-mass": ["dual", "mass"], "hmc-diag-mass": ["mass"]}[kind])
+                                                         "hmc-diag-dual-mass": ["dual", "mass"], "hmc-diag-mass": ["mass"],
+                                                         "hmc-diag-dual-closed": ["dual-closed"]}[kind])
     m = doc[-1]
     m.update(iterations=iters, checkpoint=ckpt, checkpoint_frequency=freq, every=0)
     m.pop("loggers", None)
@@ -108,6 +109,7 @@ def configs(tier):
     out.append(("mcmc-toy", lambda ck, n, f: mcmc_doc("toy", ck, n, f), {"n": 12, "f": 4}))
     out.append(("mcmc-hmc-dense-step-mass", lambda ck, n, f: mcmc_doc("hmc-dense-step-mass", ck, n, f), {"n": 16, "f": 8}))
     out.append(("mcmc-hmc-diag-dual-mass", lambda ck, n, f: mcmc_doc("hmc-diag-dual-mass", ck, n, f), {"n": 16, "f": 8}))
+    out.append(("mcmc-hmc-diag-dual-closed", lambda ck, n, f: mcmc_doc("hmc-diag-dual-closed", ck, n, f), {"n": 16, "f": 8}))
     out.append(("two-stage", None, {}))
     if tier == "thorough":
         out.append(("opt-adagrad", lambda ck, n, f: opt_doc("Adagrad", {"lr": 0.1}, ckpt=ck, iters=n, freq=f), {}))
